@@ -35,6 +35,16 @@ For each change deliver, in {wt}/.rt_out/A/ and {wt}/.rt_out/B/:
   - demo.py : a small self-contained program (run with the command line above; keep its runtime under ~2 minutes) that exits 0 / prints PASS on the UNMODIFIED tree and exits 1 / prints FAIL with the change applied, demonstrating the property violation on a concrete large/environment-specific input, and ALSO shows that a small ordinary input behaves identically with and without the change,
   - meta.json : {{"property": "{pid}", "clause_broken": "...", "what_it_needs_to_manifest": "... (state the smallest size / the environment at which it shows)", "why_tests_still_pass": "...", "commands_run": ["..."]}}.
 Verify all of it yourself: clean tree -> demo passes, suite passes; apply A -> demo fails, suite still passes; `git checkout -- .`; same for B. Leave the worktree clean (no modified tracked files) at the end; the .rt_out and .rt_tmp directories stay. In your final message list for A and B: the diff in a few lines, the failing input with its size, and the exact commands you ran with their outcomes."""
+elif mode == "edge":
+    body = f"""
+YOUR TASK: produce TWO different, independent source changes (call them A and B) to the project's code, each of which BREAKS this property while the code still imports and the existing test suite still passes (same 58 passes) — and which manifest ONLY on DEGENERATE or EXOTIC-BUT-LEGAL inputs, the places where a differential tester's input generator is thinnest: zero / one / two rows, a single column, a column that is constant or entirely empty / entirely missing, every value distinct, values that are the empty string, a single space, strings with leading/trailing whitespace, NUL or other control characters, tabs/commas/quotes/newlines inside quoted cells, very long values (>= 64 KiB), non-BMP unicode (emoji), combining characters / different unicode normal forms, right-to-left text, strings that look like numbers ('1', '1.0', '01', '1e3', 'nan', 'inf', '-0'), numeric cells that are NaN / +-inf / -0.0 / huge (1e308, 2^63) / denormal, negative codes or counts of zero, column or feature names that contain the project's own separators (' AND ', '-', ',', ';', '&', '|', '_tr_', 'AND_REL') or are empty / duplicated / equal to the label name, CRLF / CR line endings, a missing final newline, a UTF-8 BOM, blank lines, a header-only file, options at their extremes (cap 0 or 1, batch size 1, subsampling larger than the file, interaction order equal to the number of features, ratio just below 1 or just above 0, thresholds 0 / negative / huge). Each change must look like a plausible simplification, optimisation or "robustness" tweak (no magic sabotage), and ORDINARY inputs (a few hundred rows of short ASCII tokens, 3-10 columns, default options) must behave exactly as before. A and B must attack different clauses/mechanisms and be DIFFERENT from these ideas already used by others:
+{chr(10).join(known) if known else '- (none so far)'}
+
+For each change deliver, in {wt}/.rt_out/A/ and {wt}/.rt_out/B/:
+  - patch.diff : `git diff` of ONLY that change against HEAD (apply-able with `git apply` on a clean checkout),
+  - demo.py : a small self-contained program (run with the command line above; locate the tree through PYTHONPATH / `import outrank`, never through a hard-coded path) that exits 0 / prints PASS on the UNMODIFIED tree and exits 1 / prints FAIL with the change applied, demonstrating the property violation on a concrete degenerate/exotic input, and ALSO shows that an ordinary input behaves identically with and without the change. First make sure the UNMODIFIED tree really satisfies the property on your exotic input (if it does not, that is worth reporting in your final message, but pick another input for the demo),
+  - meta.json : {{"property": "{pid}", "clause_broken": "...", "what_it_needs_to_manifest": "...", "why_tests_still_pass": "...", "commands_run": ["..."]}}.
+Verify all of it yourself: clean tree -> demo passes, suite passes; apply A -> demo fails, suite still passes; `git checkout -- .`; same for B. Leave the worktree clean (no modified tracked files) at the end; the .rt_out and .rt_tmp directories stay. In your final message list for A and B: the diff in a few lines, the failing input, the exact commands you ran with their outcomes, and any exotic input on which the UNMODIFIED code already violates the property."""
 elif mode == "glue":
     body = f"""
 YOUR TASK: produce TWO different, independent source changes (call them A and B) to the project's code, each of which BREAKS this property for a USER of the project (command line `python -m outrank ...` or the public functions the pipeline itself calls) while the code still imports and the existing test suite still passes (same 58 passes) — but made OUTSIDE the innermost function the property is anchored in: in the glue around it. Think of call sites that pass the wrong/reordered/stale argument, a caller that post-processes or caches the result, argument plumbing (`args.<option>` read under another name, a default changed where it is consumed, an option honoured on one code path and ignored on another: first batch vs later batches, tail batch, target_ranking_only True vs False, interaction_order > 1, 3mr heuristics, feature_set_focus, reference_model_JSON, explode_multivalue_features, subfeature_mapping, transformers, the different data_source parsers), module-level state shared between stages, the order in which pipeline stages run, what is written to the output files versus what was computed, type conversions at stage boundaries (str/int/float/None/NaN cells, categorical codes, column order), exception handling that swallows a failure. A direct call of the anchored innermost function with ordinary arguments should behave exactly as before; the violation must be visible through the pipeline (a function one or more levels up, a task, or the written output files). The changes should look like plausible developer mistakes or refactors (no magic constants, no sabotage). A and B must attack different mechanisms and be DIFFERENT from these ideas that were already used by others:
